@@ -159,6 +159,37 @@ def translate(which=None):
     return changed, errors
 
 
+
+def gens_imported_by(modules):
+    """Translator names whose generated files lie in the import closure of the given Lean modules (read off the `import`
+    lines of lean/RTV/**.lean and the translator -> files index written by `translate`). A check regenerates AT LEAST these:
+    a theorem must never be re-checked against a stale copy of data it imports."""
+    import re as _re
+    seen, todo, gen_files = set(), list(modules), set()
+    while todo:
+        m = todo.pop()
+        if m in seen or not m.startswith('RTV'):
+            continue
+        seen.add(m)
+        path = os.path.join(LEAN, *m.split('.')) + '.lean'
+        if m.startswith('RTV.Gen.'):
+            gen_files.add(os.path.relpath(path, LEAN))
+        try:
+            with open(path, encoding='utf-8') as f:
+                for line in f:
+                    mm = _re.match(r'\s*import\s+(\S+)', line)
+                    if mm:
+                        todo.append(mm.group(1))
+                    elif line.strip() and not line.startswith(('import', '--', '/-', ' ', '-/')):
+                        break
+        except OSError:
+            pass
+    try:
+        index = json.load(open(os.path.join(GEN, '.index.json')))
+    except Exception:
+        return None            # no index yet (fresh workspace): regenerate everything
+    return sorted(name for name, outs in index.items() if set(outs) & gen_files)
+
 def lake_build(targets, timeout=3000):
     with LakeLock():
         rc, out = run(['lake', 'build'] + list(targets), cwd=LEAN, timeout=timeout)
@@ -181,7 +212,7 @@ def audit(modules):
     return thms, suspects, out
 
 
-FORBIDDEN = re.compile(r'\b(sorry|admit|native_decide|bv_decide|implemented_by|unsafe|axiom|maxHeartbeats\s+0)\b')
+FORBIDDEN = re.compile(r'\b(sorry|admit|native_decide|bv_decide|implemented_by|unsafe|axiom|maxHeartbeats\s+0|skipKernelTC|extern|ofReduceBool|reduceBool)\b|\+native\b')
 
 
 def grep_forbidden(files):
